@@ -1328,3 +1328,173 @@ Proof.
 Qed.
 
 End Ops.
+
+(* ------------------------------------------------------------------ C11 at the level of states *)
+Lemma pow_le_one : forall x k, 0 <= x <= 1 -> x ^ k <= 1.
+Proof. intros x k H. induction k; simpl; [lra|]. assert (0 <= x ^ k) by (apply pow_le; lra). nra. Qed.
+
+Lemma pow_antitone : forall x m k, 0 <= x <= 1 -> (m <= k)%nat -> x ^ k <= x ^ m.
+Proof.
+  intros x m k Hx Hmk. replace k with (m + (k - m))%nat by lia. rewrite pow_add.
+  pose proof (pow_le_one x (k - m) Hx). assert (0 <= x ^ m) by (apply pow_le; lra). nra.
+Qed.
+
+Section C11.
+Variable ln1p : N -> R.
+Hypothesis Hln : forall x, 0 <= ln1p x.
+Variable st : state RF.
+Hypothesis Hwf : wf st.
+Hypothesis Hne : @node_set RF st <> [].
+
+Let nodes := @node_set RF st.
+Let ks := @keys RF st.
+Let pre := st_pre st.
+Let es := @pos_edges RF (st_local st).
+
+(* equal statistics: every known node has the same multiplier *)
+Variable c : R.
+Hypothesis Hequal : forall i, In i ks -> @factor RF ln1p (@stats_of RF st i) = c.
+Variable d : R.
+Hypothesis Hd : 0 <= d.
+
+Lemma c_nonneg : 0 <= c.
+Proof.
+  destruct ks as [|k r] eqn:E.
+  - exfalso. apply Hne. destruct (@node_set RF st) as [|x l] eqn:En; [reflexivity|].
+    assert (In x ks) by (apply sf_nk; unfold nodes; rewrite En; now left). rewrite E in H. destruct H.
+  - rewrite <- (Hequal k (or_introl eq_refl)). apply factor_nonneg. exact Hln.
+Qed.
+
+Lemma equal_total : total ln1p st d = c * d.
+Proof.
+  unfold total. rewrite (Rsum_map_ext _ (fun i => (c * d) * V (tv st) i)).
+  - rewrite Rsum_map_scal. rewrite (proj2 (tv_dist st Hwf Hne)). lra.
+  - intros i Hi. unfold weight. rewrite (Hequal i Hi). ring.
+Qed.
+
+Lemma equal_score : forall i, In i ks -> score ln1p st d i = if Rlt_dec 0 (c * d) then V (tv st) i else 0.
+Proof.
+  intros i Hi. unfold score. rewrite equal_total. unfold weight. rewrite (Hequal i Hi).
+  pose proof c_nonneg. destruct (Rlt_dec 0 (c * d)).
+  - replace (V (tv st) i * c * d) with (V (tv st) i * (c * d)) by ring.
+    unfold Rdiv. rewrite Rmult_assoc, Rinv_r by lra. lra.
+  - assert (c * d = 0) by nra. rewrite Rmult_assoc, H0. lra.
+Qed.
+
+Definition gt : vec RF := @global_trust RF ln1p st d.
+
+Lemma gt_V : forall i, In i ks -> V gt i = if Rlt_dec 0 (c * d) then V (tv st) i else 0.
+Proof.
+  intros i Hi. unfold gt. rewrite global_trust_V by assumption. fold ks.
+  apply memN_In in Hi. rewrite Hi. apply equal_score. apply memN_In. assumption.
+Qed.
+
+Lemma gt_sum : Rsum (map (V gt) ks) = if Rlt_dec 0 (c * d) then 1 else 0.
+Proof.
+  rewrite (Rsum_map_ext _ _ ks gt_V). destruct (Rlt_dec 0 (c * d)).
+  - exact (proj2 (tv_dist st Hwf Hne)).
+  - apply Rsum_map_const0. reflexivity.
+Qed.
+
+(* every anchor keeps alpha/|A| of the total, whatever anybody states *)
+Lemma anchor_floor : forall a, In a pre ->
+  @alpha RF / INR (length pre) * Rsum (map (V gt) ks) <= V gt a.
+Proof.
+  intros a Ha. rewrite gt_sum, gt_V by (apply sf_pk; assumption).
+  destruct (Rlt_dec 0 (c * d)); [|lra]. rewrite Rmult_1_r. apply tv_floor; assumption.
+Qed.
+
+Variable Sy : list N.
+Hypothesis HSnd : NoDup Sy.
+Hypothesis HSn : incl Sy nodes.
+Hypothesis HSpre : forall i, In i Sy -> ~ In i pre.
+Hypothesis Hanch : pre <> [].
+Hypothesis Hclosed : forall e, In e (st_local st) -> 0 < e_val e -> In (e_to e) Sy -> In (e_from e) Sy.
+
+Lemma closed_es : forall e, In e es -> In (e_to e) Sy -> In (e_from e) Sy.
+Proof.
+  intros e He. unfold es, pos_edges in He. apply filter_In in He. destruct He as [He E].
+  apply ltb_R_true in E. apply Hclosed; assumption.
+Qed.
+
+Definition share : R := INR (length Sy) / INR (length nodes).
+
+Lemma share_le_1 : 0 <= share <= 1.
+Proof.
+  unfold share. pose proof (length_pos_INR nodes Hne) as Hn.
+  pose proof (NoDup_incl_length HSnd HSn) as Hl. apply le_INR in Hl. pose proof (pos_INR (length Sy)). split.
+  - apply Rdiv_nonneg; lra.
+  - apply (Rmult_le_reg_r (INR (length nodes))); [assumption|]. unfold Rdiv. rewrite Rmult_assoc, Rinv_l by lra. lra.
+Qed.
+
+Ltac sfs := first [exact (sf_nodes st)|exact Hne|exact (sf_ks st Hwf)|exact (sf_nk st)|exact Hwf|exact (sf_pk st)
+                  |exact (sf_nopre st)|exact (sf_pos st)|exact (sf_ends st)|exact HSnd|exact HSn|exact HSpre|exact Hanch|exact closed_es].
+
+(* what the loop leaves in the closed set *)
+Lemma power_spec :
+  let r := @power RF st in
+  massR Sy (fst r) <= (1 - @alpha RF) ^ N.to_nat (snd r) * share /\
+  (0 < snd r)%N /\ exit_reason nodes Sy (N.to_nat TRUST_MAX_ITERATIONS) 0 r.
+Proof.
+  pose proof (iterate_spec nodes ks pre es Hne (sf_ks st Hwf) (sf_nk st) Hwf (sf_pk st) (sf_nopre st) (sf_pos st) (sf_ends st)
+                Sy HSnd HSn HSpre Hanch closed_es (N.to_nat TRUST_MAX_ITERATIONS) 0%N (@init_vec RF nodes)) as H.
+  specialize (H ltac:(apply init_vec_dist; sfs)). cbv zeta in H. destruct H as [_ [_ [H3 [H4 H5]]]].
+  unfold power. fold nodes ks pre es. cbv zeta. rewrite N.sub_0_r in H4.
+  rewrite (init_mass nodes Hne Sy HSn) in H4. split; [exact H4|]. split; [|exact H5].
+  apply H3. unfold TRUST_MAX_ITERATIONS. discriminate.
+Qed.
+
+Definition massGT : R := Rsum (map (V gt) Sy).
+
+Lemma massGT_le : massGT <= massR Sy (tv st).
+Proof.
+  unfold massGT, massR. apply Rsum_map_le. intros i Hi. rewrite gt_V by (apply sf_nk, HSn, Hi).
+  destruct (Rlt_dec 0 (c * d)); [lra|]. apply (proj1 (tv_dist st Hwf Hne)).
+Qed.
+
+Lemma one_minus_alpha : 1 - @alpha RF = 3 / 5.
+Proof. rewrite alpha_R. lra. Qed.
+
+(* geometric decay with the number of rounds that ran *)
+Lemma closed_set_decay : massGT <= (3 / 5) ^ N.to_nat (@rounds_run RF st) * share.
+Proof.
+  eapply Rle_trans; [apply massGT_le|]. destruct power_spec as [H _]. rewrite one_minus_alpha in H. exact H.
+Qed.
+
+Lemma decay_4 : forall k, (4 <= k)%nat -> (3 / 5) ^ k * share <= share / 7.
+Proof.
+  intros k Hk. pose proof share_le_1. pose proof (pow_antitone (3/5) 4 k ltac:(lra) Hk).
+  assert ((3 / 5) ^ 4 = 81 / 625) by (simpl; lra). nra.
+Qed.
+
+Lemma sybil_seventh : (4 <= @rounds_run RF st)%N \/ 105 / 100000 <= share -> massGT <= share / 7.
+Proof.
+  intro Hside. destruct power_spec as [Hdec [Hpos Hex]]. rewrite one_minus_alpha in Hdec.
+  assert (Hge4 : (4 <= @rounds_run RF st)%N -> massGT <= share / 7).
+  { intro H4. eapply Rle_trans; [apply closed_set_decay|]. apply decay_4. lia. }
+  unfold exit_reason in Hex. fold (tv st) in Hex. unfold rounds_run in *.
+  destruct Hex as [[_ Hc]|[[_ Hc]|[[_ Hc]|Hc]]].
+  - destruct Hside as [H4|Hs]; [apply Hge4; assumption|].
+    pose proof massGT_le. rewrite conv_thr_R in Hc. lra.
+  - apply Hge4. unfold TRUST_CUT1_ITER in Hc. lia.
+  - apply Hge4. unfold TRUST_CUT2_ITER in Hc. lia.
+  - apply Hge4. rewrite Hc. unfold TRUST_MAX_ITERATIONS. lia.
+Qed.
+
+Lemma small_net : (N.of_nat (length nodes) <= 100)%N -> massGT < 1 / 1000.
+Proof.
+  intro Hn. destruct power_spec as [Hdec [Hpos Hex]]. rewrite one_minus_alpha in Hdec.
+  unfold exit_reason in Hex. fold (tv st) in Hex. pose proof massGT_le as Hle. fold (tv st) in Hdec.
+  destruct Hex as [[_ Hc]|[[Hc _]|[[Hc _]|Hc]]].
+  - rewrite conv_thr_R in Hc. lra.
+  - unfold TRUST_CUT1_N in Hc. lia.
+  - unfold TRUST_CUT2_N in Hc. lia.
+  - rewrite Hc in Hdec. pose proof share_le_1.
+    assert ((3 / 5) ^ N.to_nat (0 + N.of_nat (N.to_nat TRUST_MAX_ITERATIONS)) <= (3 / 5) ^ 14).
+    { apply pow_antitone; [lra|]. unfold TRUST_MAX_ITERATIONS. lia. }
+    assert ((3 / 5) ^ 14 < 1 / 1000) by (simpl; lra).
+    assert (0 <= (3 / 5) ^ N.to_nat (0 + N.of_nat (N.to_nat TRUST_MAX_ITERATIONS))) by (apply pow_le; lra).
+    nra.
+Qed.
+
+End C11.
